@@ -13,7 +13,7 @@ func init() {
 		ID:         "C45",
 		Level:      "other",
 		Technique:  "writer/reader table agreement between structpb.NewValue (Go type → Value kind) and Value.AsInterface (Value kind → Go value) through the kind constructors; shape rules for the Any type URL writer and readers (static)",
-		Explain:    "Decides structural necessary conditions of the Struct/Value/Any round trips: (1) structpb.NewValue maps every JSON-like Go type to the kind of the documented table (nil → null, bool → bool, all integer and float types and json.Number → number, string and []byte → string, map[string]any → struct, []any → list, anything else an error); each kind constructor New<K>Value wraps its argument in the oneof wrapper of the same kind K; Value.AsInterface has a case for every kind that NewValue can construct (null falls to nil) and returns the payload field of that same kind (AsMap/AsSlice for struct/list) — so the kind chosen on the way in is the kind read on the way out; strings are validated as UTF-8 and []byte is written as standard base64; (2) anypb: MarshalFrom writes `prefix + full name` with a prefix ending in '/', MessageName reads the text after the last '/', and MessageIs accepts exactly a URL that is the name or ends in '/' + name; UnmarshalTo refuses a destination for which MessageIs is false.",
+		Explain:    "Decides structural necessary conditions of the Struct/Value/Any round trips: (1) structpb.NewValue maps every JSON-like Go type to the kind of the documented table (nil → null, bool → bool, all integer and float types and json.Number → number, string and []byte → string, map[string]any → struct, []any → list, anything else an error); each kind constructor New<K>Value wraps its argument in the oneof wrapper of the same kind K; Value.AsInterface has a case for every kind that NewValue can construct (null falls to nil) and returns the payload field of that same kind (AsMap/AsSlice for struct/list) — so the kind chosen on the way in is the kind read on the way out; strings are validated as UTF-8 and []byte is written as standard base64; (2) anypb: MarshalFrom writes `prefix + full name` with a prefix ending in '/', MessageName reads the text after the last '/', and MessageIs accepts exactly a URL that is the name or ends in '/' + name; UnmarshalTo refuses a destination for which MessageIs is false. Also: anypb.UnmarshalTo reports success only through opts.Unmarshal (which resets a reused destination), and protojson writes google.protobuf.NullValue as null before considering UseEnumNumbers.",
 		NotCovered: "the values themselves (integers beyond 2^53, NaN/Infinity strings), recursion through nested structs/lists, encoding/json equivalence of AsInterface, UnmarshalNew's registry lookup.",
 		Quick:      all("./types/known/structpb", "./types/known/anypb", "./encoding/protojson"),
 		Thorough:   all("./..."),
